@@ -33,12 +33,9 @@ if extra:
     rc3, o3 = sh(f"go test -vet=off -count=1 {extra[0]} -run '{extra[1]}'")
     res["existing_tests_with_patch_pass"] = rc3 == 0
     res["existing_tests_tail"] = o3[-400:]
-# run the check against /repo with the patch
-rc, o = sh(f"git -C /repo apply {out}/patch.diff", cwd="/verif"); assert rc == 0, o
-try:
-    rc4, o4 = sh(f"python3 tools/check.py {prop}", cwd="/verif", timeout=3500)
-finally:
-    sh("git -C /repo checkout -- . && git -C /repo clean -fdq", cwd="/verif")
+# run the check against the scratch worktree (patch applied) through VERIF_REPO: /repo itself is not touched
+env["VERIF_REPO"] = wt
+rc4, o4 = sh(f"python3 tools/check.py {prop}", cwd="/verif", timeout=3500)
 lines = [l for l in o4.split("\n") if l.startswith("VIOLATION") or l.startswith("[" + prop)]
 res["check_exit"] = rc4
 res["check_lines"] = lines
@@ -53,7 +50,7 @@ meta = {"property": prop, "origin": "independent sub-agent given only the proper
         "demo": {"place_at": dest, "run": f"go test -vet=off -count=1 {pkg} -run '{pat}'"},
         "needs": open(f"{out}/NOTES.md").read().split("## What is needed to manifest")[-1].split("##")[0].strip()[:600] if "## What is needed to manifest" in open(f"{out}/NOTES.md").read() else "see NOTES.md",
         "confirmed": {k: res[k] for k in res if not k.endswith("_tail")},
-        "ran": f"scratch worktree {wt}: build, demo with/without patch" + (", existing tests" if extra else "") + f"; then git -C /repo apply patch.diff; python3 tools/check.py {prop}; git -C /repo checkout -- ."}
+        "ran": f"scratch worktree {wt}: build, demo with/without patch" + (", existing tests" if extra else "") + f"; then VERIF_REPO={wt} python3 tools/check.py {prop} (same as: git -C /repo apply patch.diff; python3 tools/check.py {prop}; git -C /repo checkout -- .)"}
 json.dump(meta, open(f"{d}/meta.json", "w"), indent=1)
 print(json.dumps(meta["confirmed"], indent=1))
 print(res.get("demo_with_patch_tail", "")[-300:])
